@@ -119,7 +119,7 @@ def main(pid, tier):
         cases = uniq
         nontriv = sum(1 for c in cases if any(
             a != 'none' for k, a in c['plan'].items()
-            if k in ('B', 'C1', 'D', 'E')))
+            if k in ('B', 'C1', 'C3', 'D', 'E')))
         v.cov['distinct_nontrivial'] = nontriv
         jobs = []
         for implv in ('c', 'py'):
